@@ -357,3 +357,23 @@ class VCensus(_FloatOp):
             # stored as a string: a stored dict would itself be counted by the next census
             CENSUS["snapshots"][CENSUS["count"]] = _json.dumps(take_census())
         return data
+
+
+class VerifAbort(BaseException):
+    """An abort-class exception that is neither an Exception nor KeyboardInterrupt."""
+
+
+class VAbort(_FloatOp):
+    """Raises a custom BaseException subclass."""
+
+    def _process_logic(self, data):
+        _log("VAbort")
+        raise VerifAbort("verif: deliberate abort")
+
+
+class VSysExit(_FloatOp):
+    """Raises SystemExit (sys.exit inside a processor)."""
+
+    def _process_logic(self, data):
+        _log("VSysExit")
+        raise SystemExit(3)
